@@ -90,8 +90,8 @@ def check_graph(g, spec, current, what):
         for t in spec["trans"]:
             if t.get("internal") and t["src"] == i:
                 # internal transitions are listed as "<events> / <actions>" items (several on one line, comma separated)
-                prefix = " ".join(t["events"]) + " /"
-                if not any(re.search(r"(^|, )" + re.escape(prefix), l) for l in lines[1:]):
+                listed = {frozenset(m.group(1).split()) for l in lines[1:] for m in re.finditer(r"(?:^|, )([^,/]+?) /", l)}
+                if frozenset(t["events"]) not in listed:
                     return "internal-missing", f"{what}: internal transition {t['events']} of {nm} is not listed in its label {lab!r}"
     want = [current] if current is not None else []
     if active != want:
@@ -185,6 +185,12 @@ def cases(draw, tier):
         for t in loops:
             if draw(st.booleans()):
                 t["internal"] = True
+    if draw(st.booleans()):
+        # the diagram must not depend on how the machine was declared (id-less Event objects, class attributes, from_ ...)
+        from .c15 import plan
+
+        inline_state = any(c["scope"][0] == "state" and c["attach"] != "conv" for c in spec["cbs"]) or any("name" in s_ for s_ in spec["states"])
+        spec["style"] = draw(plan(spec, [], inline_state))
     from ..core import cbid_of
 
     gids = [cbid_of(g) for g in spec.get("guards", [])]
